@@ -82,13 +82,17 @@ def consume(target, queue, depth=0):
     return consume(left, queue, depth + 1) and consume(right, queue, depth + 1)
 
 
-def run_subdivide(nodes, flat):
-    """nodes: tuple of (handle_in, point, handle_out) tuples.  Returns [(clause, msg)], splits."""
+def run_subdivide(nodes, flat, as_tuples=False):
+    """nodes: tuple of (handle_in, point, handle_out) tuples.  Returns [(clause, msg)], splits.
+    as_tuples: hand the points over as (x, y) tuples instead of [x, y] lists (the function
+    itself inserts tuples, so both representations occur in its own intermediate states)."""
     plot_utils = _lib()
-    s_p = [[list(h_in), list(pt), list(h_out)] for (h_in, pt, h_out) in nodes]
+    conv = tuple if as_tuples else list
+    s_p = [[conv(h_in), conv(pt), conv(h_out)] for (h_in, pt, h_out) in nodes]
     originals = list(s_p)
     start = snapshot(s_p)
-    desc = f"subdivideCubicPath({[tuple(map(tuple, n)) for n in s_p]}, {flat})"
+    desc = f"subdivideCubicPath({[tuple(map(tuple, n)) for n in s_p]}, {flat})" + \
+        (" [points given as tuples]" if as_tuples else "")
     real_bezmisc = plot_utils.bezmisc
     states = [start]
     problems = []
@@ -190,13 +194,65 @@ def long_node_lists():
     return out
 
 
+SCALE, SHIFT = 1 << 16, (1 << 20, -(1 << 21))
+
+
+def transformed(nodes, scale, shift):
+    return tuple(tuple((pt[0] * scale + shift[0], pt[1] * scale + shift[1]) for pt in node)
+                 for node in nodes)
+
+
+def check_similarity(nodes, flat):
+    """Subdivision commutes with scaling by a power of two and translation by large dyadic
+    offsets (all arithmetic stays exact): the result for the transformed curve must be the
+    transformed result - same number of nodes, same points.  Large coordinates are where a
+    numerically careless flatness test loses its digits."""
+    plot_utils = _lib()
+    base = [[list(h_in), list(pt), list(h_out)] for (h_in, pt, h_out) in nodes]
+    big = [[list(p) for p in node] for node in transformed(nodes, SCALE, SHIFT)]
+    try:
+        with core.watchdog(10.0):
+            plot_utils.subdivideCubicPath(base, flat)
+            plot_utils.subdivideCubicPath(big, flat * SCALE)
+    except core.CaseTimeout:
+        return [("loop", f"subdivideCubicPath on {nodes} x {SCALE} + {SHIFT} did not return")]
+    except Exception as exc:                # pylint: disable=broad-except
+        return [("raise", f"subdivideCubicPath on {nodes} x {SCALE} + {SHIFT} raised {exc!r}")]
+    want = snapshot([[list(p) for p in node] for node in transformed(
+        tuple(tuple(tuple(p) for p in node) for node in base), SCALE, SHIFT)])
+    if snapshot(big) != want:
+        return [("similarity", f"subdivideCubicPath({[tuple(map(tuple, n)) for n in nodes]}, {flat}) "
+                 f"gives {len(base)} nodes; the same curve scaled by {SCALE} and shifted by {SHIFT} "
+                 f"with flatness {flat * SCALE} gives {len(big)} nodes that are not its image")]
+    return []
+
+
+def _similar_chunk(args):
+    items, flats = args
+    part = core.Part()
+    for item in items:
+        nodes = one_piece(item)
+        for flat in flats:
+            for clause, msg in check_similarity(nodes, flat):
+                part.violation(f"{clause}:sim:{item}:{flat}", msg,
+                               {"kind": "similar", "nodes": [[list(p) for p in n] for n in nodes],
+                                "flat": flat})
+            part.count("calls", 2)
+            part.count("similarity_cases")
+    return part
+
+
 def _chunk(args):
+    if args[0] == "similar":
+        return _similar_chunk(args[1:])
     kind, items, flats = args
     part = core.Part()
     for item in items:
-        nodes = one_piece(item) if kind == "one" else (two_pieces(item) if kind == "two" else item)
+        as_tuples = kind == "one_t"
+        nodes = one_piece(item) if kind in ("one", "one_t") else \
+            (two_pieces(item) if kind == "two" else item)
         for flat in flats:
-            bad, splits = run_subdivide(nodes, flat)
+            bad, splits = run_subdivide(nodes, flat, as_tuples)
             part.count("calls")
             part.count("states", splits + 1)
             part.count("transitions", max(splits, 1))
@@ -206,7 +262,7 @@ def _chunk(args):
             for clause, msg in bad:
                 part.violation(f"{clause}:{kind}:{item}:{flat}", msg,
                                {"kind": "curve", "nodes": [[list(p) for p in n] for n in nodes],
-                                "flat": flat})
+                                "flat": flat, "as_tuples": as_tuples})
     if items:
         mid = items[len(items) // 2]
         part.sample({"family": kind, "control_points": [list(p) for p in mid] if kind != "raw"
@@ -224,6 +280,8 @@ def run(ctx):
     ones = list(itertools.product(LATTICE, repeat=4))
     for chunk in core.split(ones, 48):
         jobs.append(("one", chunk, flats))
+    for chunk in core.split(ones, 32):
+        jobs.append(("one_t", chunk, [0.3, 1.0]))       # the same curves, points as tuples
     twos = list(itertools.product(SUB, repeat=7))
     if not ctx.thorough:
         twos = twos[::9]
@@ -233,6 +291,8 @@ def run(ctx):
     jobs.append(("raw", single, flats))
     for nodes in long_node_lists():
         jobs.append(("raw", [nodes], [0.3, 1.0]))
+    for chunk in core.split(ones[::ctx.pick(5, 1)], 16):
+        jobs.append(("similar", chunk, [0.3, 1.0]))
     part = core.fan_out(ctx, _chunk, jobs)
     cnt = part.counters
     coverage = {
@@ -243,10 +303,14 @@ def run(ctx):
         "distinct_nontrivial": cnt.get("nontrivial", 0),
         "rule": "all one-piece curves with 4 control points on the 3x3 lattice (6561) x flatness "
                 f"{flats}; two-piece node lists over a 5-point sub-lattice (5^7, every 9th in "
-                "quick); empty and single-node lists; six chained lists of 10..60 nodes; states = node lists observed after every "
+                "quick); the one-piece curves again with points given as tuples (flatness 0.3, 1.0); "
+                "empty and single-node lists; six chained lists of 10..60 nodes; every 5th "
+                "(thorough: every) one-piece curve again scaled by 2^16 and shifted by (2^20, "
+                "-2^21), which must give the image of the unscaled result; states = node lists observed after every "
                 "split; non-trivial = calls that split at least once; all inputs distinct",
         "samples": core.rotate(part.samples, ctx.seed, 4),
         "max_splits_in_one_call": cnt.get("max_splits", 0),
+        "similarity_cases": cnt.get("similarity_cases", 0),
         "exhaustive": True,
     }
     assumptions = ["lattice coordinates are small integers, so every midpoint is a dyadic rational "
@@ -257,4 +321,6 @@ def run(ctx):
 
 def replay(case):
     nodes = tuple(tuple(tuple(p) for p in n) for n in case["nodes"])
-    return [m for _c, m in run_subdivide(nodes, case["flat"])[0]]
+    if case["kind"] == "similar":
+        return [m for _c, m in check_similarity(nodes, case["flat"])]
+    return [m for _c, m in run_subdivide(nodes, case["flat"], case.get("as_tuples", False))[0]]
